@@ -5,6 +5,8 @@ package memtierd
 import (
 	"context"
 	"io"
+	"os"
+	"path/filepath"
 
 	"github.com/containerd/nri/pkg/api"
 	"github.com/sirupsen/logrus"
@@ -34,6 +36,24 @@ func (h *Handle) CreateContainer(pod *api.PodSandbox, ctr *api.Container) (*api.
 
 func (h *Handle) StartContainer(pod *api.PodSandbox, ctr *api.Container) error {
 	return h.p.StartContainer(context.Background(), pod, ctr)
+}
+
+// StartedClassMarker runs StartContainer with a scratch cgroup tree that has a
+// directory for the container and returns the memtierd configuration the
+// handler instantiated for it ("" if none). The memtierd child itself cannot
+// be started in the sandbox; the configuration file is written before that.
+func (h *Handle) StartedClassMarker(pod *api.PodSandbox, ctr *api.Container, scratch string) string {
+	cg := filepath.Join(scratch, "cgroup")
+	os.MkdirAll(filepath.Join(cg, "kubepods", "cri-"+ctr.GetId()+".scope"), 0o755)
+	h.p.cgroupsDir = cg
+	cfg := filepath.Join(opt.runDir, pod.GetNamespace(), pod.GetName(), ctr.GetName(), "memtierd.config.yaml")
+	os.Remove(cfg)
+	h.p.StartContainer(context.Background(), pod, ctr)
+	b, err := os.ReadFile(cfg)
+	if err != nil {
+		return ""
+	}
+	return string(b)
 }
 
 func (h *Handle) StopContainer(pod *api.PodSandbox, ctr *api.Container) ([]*api.ContainerUpdate, error) {
